@@ -67,7 +67,7 @@ var rePool = []ReEntry{
 	{`x[0-9]*`, []string{"x", "x1", "x42"}, []string{"ax", "x.y", "xa"}, []string{"a", "42", "b"}},
 	{`[a-z]+\.json`, []string{"a.json", "users.json"}, []string{"a.jsonx", "1a.json"}, []string{"a", "x.y", "ajson"}},
 	{`\d+:\d+`, []string{"3:4", "10:20"}, []string{"a3:4", "3:4b"}, []string{"3", "a:b", "34"}},
-	{`[^/]+`, []string{"a", "42", "x.y", "é"}, nil, nil},
+	{`\w+`, []string{"a", "42", "ab", "v1"}, []string{"x.y", "a-b"}, []string{"é", "-"}},
 }
 
 var curlyRe = ReEntry{`^pre-`, nil, []string{"pre-x", "pre-"}, []string{"x", "apre-", "a"}}
